@@ -1330,3 +1330,18 @@ Proof.
   assert (E2 : (2047 <? swShadow w - d1 - d2) = false) by (apply N.ltb_ge; clearbody d1 d2; clear - Hf D1 D2; lia).
   rewrite E1, E2. cbn [orb]. rewrite !Bool.andb_false_r. reflexivity.
 Qed.
+
+(* C19: with sweep period 0 the unit never recalculates: a sweep clock neither switches the channel off nor touches
+   the frequency or the shadow register (only the unit's timer moves) - for every state of channel and unit *)
+Theorem sweep_period0_inert c w :
+  swPeriod w = 0 ->
+  sweep_overflows w = false /\
+  fst (ch1_tick_sweep c w) = c /\
+  swShadow (snd (ch1_tick_sweep c w)) = swShadow w /\ swPeriod (snd (ch1_tick_sweep c w)) = 0.
+Proof.
+  intros Hp. split.
+  - unfold sweep_overflows. rewrite Hp. cbn [N.eqb negb]. rewrite Bool.andb_false_r. reflexivity.
+  - unfold ch1_tick_sweep. destruct (swEnabled w); [|repeat split; try reflexivity; exact Hp]. psimpl.
+    destruct (sub8 (swTimer w) 1 =? 0); [|repeat split; try reflexivity; exact Hp].
+    rewrite Hp. cbn [N.eqb]. psimpl. repeat split; try reflexivity; exact Hp.
+Qed.
